@@ -31,6 +31,16 @@ def strategy(tier):
     return st.fixed_dictionaries({"module": G.module(p), "layout": G.layout_choices()})
 
 
+def extra(ctx):
+    """Modules with 125..450 top-level items (a drawn item list tiled 25..45 times, every copy with its own names), most of them documented (bookkeeping that grows with the file)."""
+    from .common import large_campaign
+    from vlib.cminx_run import dispatch_collisions
+    p = G.Profile(max_items=10, min_items=5, depth=2, body_max=2, p_doc_mostly=True, impl_doc=True, dups=True,
+                  generic_cmds=dispatch_collisions() + G.GENERIC_CMDS)
+    large_campaign(ctx, st.fixed_dictionaries({"module": G.module(p, repeat=st.integers(25, 45)), "layout": G.layout_choices()}),
+                   evaluate, 6 if ctx.tier == "quick" else 40)
+
+
 def nontrivial(module):
     all_items = list(G.walk(module["items"]))
     if len(all_items) < 4:
